@@ -18,6 +18,10 @@ focus = {"A": "the glue around the protocol cores: the two main() functions (opt
          "F": "numeric boundaries: 16 vs 17 fragments, payloads of 4094/4095/4096 bytes, names of 253/255/256 characters, labels of 63/64, passwords of 31/32/33 bytes, user ids 15/16, netmasks /8 and /30, sequence number 7 -> 0, fragment 15 -> 0, the CMC and query-id wrap-arounds, DNS id 0 and 65535, clock values around 2^31",
          "G": "error and retry paths: what the programs do AFTER a BADIP / BADLEN / BADCODEC / BADFRAG / LNAK / VFUL / SERVFAIL, after a give-up, after a cache or query-memory hit, after a failed uncompress, after a refused login, after an option was refused, after a handshake step timed out and was retried",
          "H": "several clients at once: slot allocation and re-use, user-to-user packets, one client's traffic affecting another's queue, cache or sequence numbers, per-user settings leaking between slots, the 16-user limit, clients behind the same address",
+         "I": "the CLIENT side only (client.c, iodine.c, tun.c, util.c as the client uses them): handshake steps and their retries, codec and fragment-size negotiation, the tunnel loop's timers and counters, reassembly, what is handed to the shell, option handling",
+         "J": "the WIRE layer only (dns.c, read.c, encoding.c, base32/64/64u/128.c, the Makefile rule that generates base64u.c): encoders and decoders of every record type, name compression, length fields, capacity computations, the host-name builder and its inverse on the server",
+         "K": "the SERVER's session machine only (iodined.c handle_null_request and its helpers, user.c, fw_query.c): the answer cache and query memories, fragment/ack bookkeeping, lazy-mode query holding, the send-real-soon sweep, raw mode, forwarding",
+         "L": "things that only show over LONG runs or many repetitions: counters that wrap (3-bit and 4-bit numbers, the 36-value CMC, 16-bit ids and seeds), rings that fill up (4, 15, 16, 30 entries), the 16th user, the 17th fragment, clocks far in the future, hundreds of packets in one session",
          "D": "input decoding and memory: hostile or unusual datagrams, boundary lengths, signedness and integer conversions, buffers filled exactly, residue of earlier messages, unusual but legal DNS encodings (compression, EDNS0, record types, case)"}[tag[-1]]
 text = f"""# Task: seed realistic property-breaking changes into a scratch copy of iodine (free-form round)
 
